@@ -1200,8 +1200,10 @@ func (g *plGen) enumGrowthScene() {
 		}
 		g.emit(sprintf("pl edump %d", e))
 	}
-	for _, k := range r.Perm(6) {
+	for _, k := range r.Perm(7) {
 		switch k {
+		case 6:
+			g.emit(sprintf("pl enum.rm %d %d", e, v1)) // a value that is NOT the highest one
 		case 0:
 			g.emit(sprintf("pl val.idx %d %d", v2, pick(r, 4, 8, 9, 16, 17, 255, 256)))
 		case 1:
